@@ -180,11 +180,11 @@ def getOffset (f : Fam) (x : Obj) : Except Err Int := do
 def addressOfInt (f : Fam) (n : Int) : Except Err Nat :=
   if 0 ≤ n ∧ n ≤ (allOnes f : Int) then .ok n.toNat else .error .addressValueError
 
-/-- `network_offset` setter with an `int`: only `ip_object` is replaced.
-As written there is no lower bound on `arg`. -/
+/-- `network_offset` setter with an `int`: only `ip_object` is replaced
+(`0 <= arg <= max_offset`, after the F41 repair). -/
 def setOffset (f : Fam) (x : Obj) (arg : Int) : Except Err Obj :=
   let maxOffset : Int := (asDecimalBroadcast f x : Int) - (asDecimalNetwork x : Int)
-  if arg ≤ maxOffset then do
+  if 0 ≤ arg ∧ arg ≤ maxOffset then do
     let ip ← addressOfInt f ((asDecimalNetwork x : Int) + arg)
     .ok { x with ip := ip }
   else .error .addressValueError
